@@ -139,6 +139,38 @@ def judge_lineage(rows, agent):
     return None
 
 
+def judge_teleport_lineage(rows, agent, seq):
+    """the teleport rule on states that descend from a teleportation: along every action sequence the successor of the
+    state OBJECT reached so far is one the reference allows for its value (an agent that ends a step on a telepod is
+    sent to a partner - also when it arrived there by teleporting)"""
+    from gym_gridverse.envs.transition_functions import transition_with_copy
+    names = ('move_agent', 'turn_agent', 'teleport')
+    fn = dyn.chain_fn(names)
+    y, x, h = agent
+    st = mkstate((rows, y, x, h, NONE))
+    for i, a in enumerate(seq):
+        cur = sdesc(st)
+        want = R.ref_chain_set(names, cur, a)
+        got = set()
+        first = None
+        for choices, res, _ in explore(lambda rng: transition_with_copy(fn, st, dyn.ACT[a], rng=rng), max_runs=64):
+            got.add(sdesc(res))
+            first = first if first is not None else res
+        if got != want:
+            return (f'step {i} ({a}) of {list(seq)} from a state reached through the earlier steps: agent may end at '
+                    f'{sorted((g[1], g[2], g[3]) for g in got)}, reference {sorted((g[1], g[2], g[3]) for g in want)}')
+        st = first
+    return None
+
+
+def teleport_lineage_cases():
+    F_, T1, T2 = FLOOR, U.telepod(U.C1), U.telepod(U.C2)
+    yield ((F_, T1, F_, T1),), (0, 0, 'R')
+    yield ((F_, T1), (T1, F_)), (0, 0, 'R')
+    yield ((F_, T1, T1, T1),), (0, 0, 'R')
+    yield ((T1, F_, T2), (F_, T2, T1)), (1, 0, 'F')
+
+
 def lineage_cases():
     F_, W, OB = FLOOR, WALL, U.OBST
     BX = U.box(OB)
@@ -300,6 +332,8 @@ def replay(case):
         return judge_shared_telepods(tup(case['s']), case['a'])
     if case['kind'] == 'not_on_telepod':
         return judge_not_on_telepod()[1]
+    if case['kind'] == 'tele_lineage':
+        return judge_teleport_lineage(tup(case['rows']), tuple(case['agent']), list(case['seq']))
     if case['kind'] == 'lineage':
         return judge_lineage(tup(case['rows']), tuple(case['agent']))
     raise ValueError(case['kind'])
@@ -350,6 +384,15 @@ def run(rep, tier, seed):
         if m:
             fails.append({'kind': 'lineage', 'rows': rows, 'agent': list(agent), 'message': m, 's': (rows,) + tuple(agent) + (NONE,),
                           'sig': {'fn': 'move_obstacles', 'part': 'lineage'}})
+    import itertools as _it
+    for rows, agent in teleport_lineage_cases():
+        for seq in _it.product(('MOVE_FORWARD', 'TURN_LEFT', 'MOVE_BACKWARD', 'MOVE_RIGHT'), repeat=3):
+            ln += 1
+            m = judge_teleport_lineage(rows, agent, seq)
+            if m:
+                fails.append({'kind': 'tele_lineage', 'rows': rows, 'agent': list(agent), 'seq': list(seq), 'message': m,
+                              's': (rows,) + tuple(agent) + (NONE,), 'sig': {'fn': 'teleport', 'part': 'lineage'}})
+                break
     rep.part('lineage', cases=ln, rule='obstacle outcome sets on states reached through move_obstacles -> open a box holding an obstacle')
     for f in fails:
         if 'INTERNAL-CONFORMANCE' in f['message']:
